@@ -118,6 +118,22 @@ class TableACPolicy(AbstractActorCriticPolicy):
         return None, self.values[_sidx(observation)], jnp.array(0.0), jnp.array(0.0)
 
 
+class KeyAwareTablePolicy(TableACPolicy):
+    """Two tables: `table` is played when no key is given (the key-less / greedy behaviour), `keyed` when a key is
+    given (whatever its value), so that an evaluation run is an exact function of *which* mode was requested."""
+
+    name: ClassVar[str] = "KeyAwareTablePolicy"
+    keyed: jax.Array
+
+    def __init__(self, env, table, keyed):
+        super().__init__(env, table)
+        self.keyed = jnp.asarray(keyed, jnp.int32)
+
+    def __call__(self, state, observation, *, key=None, action_mask=None):
+        s = _sidx(observation)
+        return None, (self.table[s] if key is None else self.keyed[s])
+
+
 class CountingQPolicy(AbstractQPolicy):
     """Stateful table Q policy for DQN collection checks."""
 
